@@ -5,6 +5,7 @@ set -u
 patch="$1"; pid="$2"; shift 2
 cd "$(dirname "$0")/.."
 if ! git -C /repo diff --quiet; then echo "refusing: /repo has uncommitted changes"; exit 2; fi
+trap 'git -C /repo checkout -- .' EXIT INT TERM
 git -C /repo apply "$patch" || { echo "patch does not apply"; exit 2; }
 # evidence of runs against a changed tree must not replace the evidence of the unchanged tree
 VERIF_EVIDENCE_DIR="$(pwd)/replays/tmp/mutant-evidence" ./check "$pid" "$@"
